@@ -22,6 +22,30 @@
  *     offset attributes of each output are the positions of its NAL units.
  *  L  after release everything the framer allocated is returned (fixture audit); ASan and
  *     assert() guard every run.
+ *
+ * Input that is not an octet stream (the tape's octets after the output encapsulation choice). The same access
+ * units are fed one per buffer as bare NAL units with NAL offset attributes (UREF_H26X_ENCAPS_NALU), with 4-, 2-
+ * or 1-octet length prefixes, or as Annex B pieces; the parameter sets stay in band or travel only in the global
+ * headers of the flow definition (Annex B form, or avcC / hvcC written by the reference writer of C17_enc.h). Each
+ * such input is run once per output encapsulation the sink can ask for (ANNEXB, NALU, LENGTH4, LENGTH2, LENGTH1).
+ *  F  (streams of the reference encoder and the recorded stream) every buffer yields exactly one output, in order;
+ *     the output parses in the encapsulation that was asked for; its NAL units are, after the AUD / parameter sets
+ *     the framer may prepend when writing Annex B, octet for octet the NAL units that were fed (trailing_zero_8bits,
+ *     which belong to the Annex B byte stream and not to the NAL unit, aside); the NAL offset attributes are the
+ *     positions of its NAL units. An access unit with a NAL unit too long for a 1-octet prefix is refused with an
+ *     error event when LENGTH1 is asked (the refusal rule of upipe_h26xf_convert_frame), nothing else is.
+ *  E  the attributes the executor compares between cuttings (key, random access, picture number, slice type) are
+ *     also the same as what the octet-stream run gave for the same access unit; when both wrote Annex B from in-band
+ *     parameter sets the complete NAL unit lists (prepended ones included) are the same.
+ *  G  when the sink asks for global headers (f.global, as upipe_avformat_sink does) every flow definition in force
+ *     when an access unit arrives carries f.headers that parse (reference parser) as Annex B or as an avcC / hvcC
+ *     record matching the encapsulation asked for; every NAL unit in it is octet-identical to a parameter set that
+ *     was sent; it holds the SPS the access unit refers to, with its latest content; the record's profile / level
+ *     octets are those of that SPS. The same sequence of flow definitions under all cuttings.
+ *  P  (any input) when the encapsulation asked for is the one that was fed (not Annex B) each output is
+ *     octet-identical to one of the buffers, in order.
+ * The optional SPS syntax (VUI with timing and HRD parameters, scaling lists: g_ext) changes no oracle: such streams
+ * are valid, so V, F and M apply.
  */
 #include "vp.h"
 #include "tape.h"
@@ -35,12 +59,18 @@
 #include <stdio.h>
 
 enum { CL_CUT_IN_SC, CL_ONEBYTE, CL_CORRUPT, CL_H265, CL_VALID, CL_SEED, CL_MULTI_AU, CL_3SC, CL_TZ, CL_PREFIX_PS,
-       CL_SEGCUT, CL_MUTATED, CL_ARBITRARY, CL_ESC, CL_NOOUT, CL_MANY_AU, CL_CUT_AFTER_SC, CL_LEADZ, CL_CONVERTED };
+       CL_SEGCUT, CL_MUTATED, CL_ARBITRARY, CL_ESC, CL_NOOUT, CL_MANY_AU, CL_CUT_AFTER_SC, CL_LEADZ, CL_CONVERTED,
+       CL_FRAMES, CL_F_NALU, CL_F_LEN, CL_F_LEN1, CL_F_ANNEXB, CL_F_VALID, CL_OOB, CL_OOB_RECORD, CL_OOB_INFER, CL_WANT_GLOBAL,
+       CL_GLOBAL_BUILT, CL_VUI, CL_HRD, CL_TIMING, CL_SCALING, CL_REFUSED1, CL_F_CORRUPT, CL_F_SEG, CL_F_COMPLETE, CL_F_MULTI };
 static const char *const class_names[] = {
     "cut_inside_start_code", "one_octet_buffers", "corrupt_input", "h265", "reference_stream", "recorded_stream",
     "ge2_access_units", "has_3_octet_start_code", "trailing_zero_octets", "parameter_sets_prepended",
     "segment_boundary_inside_buffer", "mutated_stream", "arbitrary_octets", "emulation_prevention_in_stream",
-    "no_output_at_all", "ge4_access_units", "cut_right_after_start_code", "leading_zero_octets", "output_converted", NULL };
+    "no_output_at_all", "ge4_access_units", "cut_right_after_start_code", "leading_zero_octets", "output_converted",
+    "au_per_buffer_input", "input_nalu", "input_length_prefixed", "input_length1", "input_annexb_per_au", "au_per_buffer_reference_stream",
+    "parameter_sets_only_in_global_headers", "global_headers_avcc_hvcc", "input_encapsulation_inferred_from_headers", "sink_asks_global_headers",
+    "global_headers_built_and_checked", "sps_with_vui", "sps_with_hrd", "sps_with_timing_info", "sps_with_scaling_lists",
+    "length1_output_refuses_long_nal", "au_per_buffer_corrupt", "au_per_buffer_segmented", "annexb_complete_access_units", "au_per_buffer_ge2", NULL };
 
 #define MAXCUT 64
 struct cutting { int n; size_t pos[MAXCUT]; bool seg[MAXCUT]; };   /* boundaries strictly inside (0,len) */
@@ -49,6 +79,7 @@ struct run {
     struct fx fx;
     const char *audit;
     const char *err;
+    bool skipped;
 };
 
 static struct es es;
@@ -63,10 +94,11 @@ static bool is_prefix_type(bool h265, const uint8_t *hdr)
 }
 
 /* feeds the stream under a cutting and releases the framer */
-static void do_run(struct run *r, bool h265, uint8_t out_encaps, const uint8_t *p, size_t len, const struct cutting *c, bool onebyte)
+static void do_run(struct run *r, bool h265, uint8_t out_encaps, bool want_global, const uint8_t *p, size_t len, const struct cutting *c, bool onebyte)
 {
     memset(r, 0, sizeof(*r));
-    r->err = fx_open(&r->fx, h265, out_encaps);
+    struct fx_input in = { UREF_H26X_ENCAPS_ANNEXB, NULL, 0, false };
+    r->err = fx_open_ex(&r->fx, h265, out_encaps, want_global, &in);
     if (r->err) return;
     if (onebyte) {
         size_t one = 1;
@@ -166,6 +198,310 @@ static bool out_equal(const struct fx_out *a, const struct fx_out *b, char *why,
     return true;
 }
 
+/* ================= input that is not an octet stream: one access unit per buffer ================= */
+enum { FORM_NONE, FORM_NALU, FORM_LEN4, FORM_LEN2, FORM_LEN1, FORM_ANNEXB };
+static const char *const formname[] = { "none", "NALU", "LENGTH4", "LENGTH2", "LENGTH1", "ANNEXB (one access unit per buffer)" };
+static const char *encname(uint8_t e)
+{
+    return e == UREF_H26X_ENCAPS_ANNEXB ? "ANNEXB" : e == UREF_H26X_ENCAPS_NALU ? "NALU" : e == UREF_H26X_ENCAPS_LENGTH4 ? "LENGTH4" :
+           e == UREF_H26X_ENCAPS_LENGTH2 ? "LENGTH2" : e == UREF_H26X_ENCAPS_LENGTH1 ? "LENGTH1" : "LENGTH_UNKNOWN";
+}
+static int enc_plen(uint8_t e) { return e == UREF_H26X_ENCAPS_LENGTH4 ? 4 : e == UREF_H26X_ENCAPS_LENGTH2 ? 2 : e == UREF_H26X_ENCAPS_LENGTH1 ? 1 : 0; }
+
+#define FM_MAXNAL   320
+#define FM_MAXFR    96
+#define FM_MAXK     (FX_MAXOFF + 8)
+struct fnal { size_t hp, pend, start, end; int type; bool ps, vcl; int es; int fr; };
+struct fkn { int fn; size_t at, len; };     /* a NAL unit as fed: index in fnal, payload position inside the buffer, payload length */
+struct frame {
+    size_t off, len;            /* in fbuf */
+    int k0, nk;                 /* its NAL units in fkn */
+    size_t noff[FM_MAXK]; int nnoff;    /* NAL offset attributes to set (NALU form) */
+    bool big1;                  /* holds a NAL unit longer than 255 octets */
+    int au;                     /* model access unit or copy number */
+};
+static struct fnal fnal[FM_MAXNAL]; static int nfnal;
+static struct fkn fkn[FM_MAXNAL]; static int nfkn;
+static struct frame frames[FM_MAXFR]; static int nframes;
+static uint8_t fbuf[2 * ES_MAX + 8192]; static size_t fbuf_len;
+static uint8_t ghdr[GH_MAX]; static size_t ghdr_len;
+static struct ghnal oobn[GH_MAXNAL]; static int noob;
+static struct run fruns[5];
+static const uint8_t fouts[5] = { UREF_H26X_ENCAPS_ANNEXB, UREF_H26X_ENCAPS_NALU, UREF_H26X_ENCAPS_LENGTH4, UREF_H26X_ENCAPS_LENGTH2, UREF_H26X_ENCAPS_LENGTH1 };
+
+static bool is_ps_type(bool h265, int t) { return h265 ? (t == 32 || t == 33 || t == 34) : (t == 7 || t == 8); }
+static int ps_rank(bool h265, int t) { return h265 ? t - 32 : t - 7; }
+
+/* the NAL unit table of the stream: from the reference encoder's records, or (recorded stream, corrupt input)
+ * from the harness' Annex B scanner */
+static void fm_table(bool h265, bool model, const uint8_t *st, size_t len, const size_t *sstart, const size_t *shdr, int nsc,
+                     size_t copylen, int gsz)
+{
+    nfnal = 0;
+    if (model) {
+        for (int a = 0; a < es.nau; a++)
+            for (int k = es.au[a].nal0; k < es.au[a].nal1 && nfnal < FM_MAXNAL; k++) {
+                const struct nalrec *r = &es.nal[k];
+                struct fnal *f = &fnal[nfnal++];
+                f->hp = r->hp; f->pend = r->pend; f->start = r->start; f->end = r->end; f->type = r->type;
+                f->ps = is_ps_type(h265, r->type); f->vcl = r->vcl; f->es = k; f->fr = a;
+            }
+        return;
+    }
+    for (int k = 0; k < nsc && nfnal < FM_MAXNAL; k++) {
+        struct fnal *f = &fnal[nfnal++];
+        f->hp = shdr[k]; f->start = sstart[k]; f->end = k + 1 < nsc ? sstart[k + 1] : len;
+        if (f->hp > f->end) f->hp = f->end;
+        f->pend = f->end; while (f->pend > f->hp && st[f->pend - 1] == 0) f->pend--;
+        f->type = f->hp < f->end ? (h265 ? (st[f->hp] >> 1) & 0x3f : st[f->hp] & 0x1f) : 0;
+        f->ps = is_ps_type(h265, f->type);
+        f->vcl = h265 ? f->type < 32 : (f->type >= 1 && f->type <= 5);
+        f->es = -1;
+        f->fr = copylen ? (int)(f->start / copylen) : k / gsz;
+    }
+}
+
+/* parameter sets for the global headers: distinct contents, VPS before SPS before PPS. Returns false when one
+ * parameter set id has two contents in the stream (such a stream cannot be described by global headers alone). */
+static bool fm_collect_ps(bool h265, const uint8_t *st, bool strict)
+{
+    noob = 0;
+    for (int rank = 0; rank < 3; rank++)
+        for (int k = 0; k < nfnal; k++) {
+            const struct fnal *f = &fnal[k];
+            if (!f->ps || ps_rank(h265, f->type) != rank || f->pend <= f->hp) continue;
+            bool dup = false, clash = false;
+            for (int q = 0; q < noob; q++) {
+                if (oobn[q].type != f->type) continue;
+                if (oobn[q].len == f->pend - f->hp && !memcmp(oobn[q].p, st + f->hp, oobn[q].len)) { dup = true; break; }
+                /* same type, other content: another id, or a redefinition? */
+                if (f->es < 0) clash = true;
+                else for (int j = 0; j < nfnal; j++)
+                    if (fnal[j].es >= 0 && fnal[j].type == f->type && st + fnal[j].hp == oobn[q].p && es.nal[fnal[j].es].id == es.nal[f->es].id) clash = true;
+            }
+            if (dup) continue;
+            if (clash && strict) return false;
+            if (noob >= GH_MAXNAL || (!strict && noob >= 12)) { if (strict) return false; continue; }
+            oobn[noob].type = f->type; oobn[noob].p = st + f->hp; oobn[noob].len = f->pend - f->hp; noob++;
+        }
+    return noob > 0;
+}
+
+/* builds the buffers. form: how each access unit is serialised; oob: parameter sets are left out */
+static void fm_build(const uint8_t *st, int form, bool oob)
+{
+    nframes = 0; nfkn = 0; fbuf_len = 0;
+    int plen = form == FORM_LEN4 ? 4 : form == FORM_LEN2 ? 2 : form == FORM_LEN1 ? 1 : 0;
+    for (int k = 0; k < nfnal; ) {
+        int fr = fnal[k].fr, k1 = k;
+        while (k1 < nfnal && fnal[k1].fr == fr) k1++;
+        struct frame *f = &frames[nframes];
+        memset(f, 0, sizeof(*f));
+        f->off = fbuf_len; f->k0 = nfkn; f->au = fr;
+        for (int q = k; q < k1; q++) {
+            const struct fnal *n = &fnal[q];
+            if (oob && n->ps) continue;
+            if (f->nk >= FM_MAXK - 1 || nfkn >= FM_MAXNAL) break;
+            size_t pl = form == FORM_ANNEXB ? n->end - n->hp : n->pend - n->hp;
+            if (fbuf_len + pl + 8 > sizeof(fbuf)) break;
+            if (f->nk && form == FORM_NALU) f->noff[f->nnoff++] = fbuf_len - f->off;
+            if (form == FORM_ANNEXB) { memcpy(fbuf + fbuf_len, st + n->start, n->hp - n->start); fbuf_len += n->hp - n->start; }
+            for (int i = plen - 1; i >= 0; i--) fbuf[fbuf_len++] = (uint8_t)(pl >> (8 * i));
+            fkn[nfkn].fn = q; fkn[nfkn].at = fbuf_len - f->off; fkn[nfkn].len = pl; nfkn++; f->nk++;
+            memcpy(fbuf + fbuf_len, st + n->hp, pl); fbuf_len += pl;
+            if (pl > 255) f->big1 = true;
+        }
+        f->len = fbuf_len - f->off;
+        if (f->nk && f->len && nframes < FM_MAXFR - 1) nframes++;
+        else { nfkn = f->k0; fbuf_len = f->off; }
+        k = k1;
+    }
+}
+
+/* NAL units of an output, by the encapsulation that was asked for. ps[i] / pl[i]: payload; trailing zero octets
+ * (trailing_zero_8bits of Annex B, not part of the NAL unit) are left out of pl. st0[i]: where the NAL unit begins
+ * with its prefix. Returns the count or -1 with a message. */
+static int out_nals(const struct fx_out *o, uint8_t enc, size_t *st0, size_t *ps, size_t *pl, int max, char *why, size_t n)
+{
+    int c = 0;
+    if (o->size == (size_t)-1) { snprintf(why, n, "no readable block"); return -1; }
+    if (enc == UREF_H26X_ENCAPS_ANNEXB) {
+        static size_t a[FM_MAXK + 40], h[FM_MAXK + 40];
+        int m = es_scan(o->bytes, o->size, a, h, FM_MAXK + 40);
+        if (m == 0 || a[0] != 0) { snprintf(why, n, "does not begin with a start code"); return -1; }
+        if (m > max) { snprintf(why, n, "more than %d NAL units", max); return -1; }
+        for (int k = 0; k < m; k++) {
+            size_t e = k + 1 < m ? a[k + 1] : o->size;
+            st0[k] = a[k]; ps[k] = h[k]; pl[k] = e - h[k];
+        }
+        c = m;
+    } else if (enc == UREF_H26X_ENCAPS_NALU) {
+        int m = o->noff;
+        if (m && o->off[m - 1] == o->size) m--;     /* one more attribute equal to the size is tolerated */
+        if (m + 1 > max) { snprintf(why, n, "more than %d NAL units", max); return -1; }
+        size_t prev = 0;
+        for (int k = 0; k <= m; k++) {
+            size_t e = k < m ? o->off[k] : o->size;
+            if (e < prev || e > o->size || (k < m && e == prev)) { snprintf(why, n, "NAL offset attribute %d = %zu does not follow %zu inside %zu octets", k, e, prev, o->size); return -1; }
+            st0[k] = prev; ps[k] = prev; pl[k] = e - prev; prev = e;
+        }
+        c = m + 1;
+    } else {
+        int plen = enc_plen(enc);
+        size_t pos = 0;
+        while (pos < o->size) {
+            if (c >= max) { snprintf(why, n, "more than %d NAL units", max); return -1; }
+            if (pos + plen > o->size) { snprintf(why, n, "%zu octets left at %zu cannot hold a %d-octet length", o->size - pos, pos, plen); return -1; }
+            size_t l = 0;
+            for (int i = 0; i < plen; i++) l = l << 8 | o->bytes[pos + i];
+            if (pos + plen + l > o->size) { snprintf(why, n, "length %zu at offset %zu runs past the %zu octets of the output", l, pos, o->size); return -1; }
+            st0[c] = pos; ps[c] = pos + plen; pl[c] = l; c++;
+            pos += plen + l;
+        }
+    }
+    for (int k = 0; k < c; k++) while (pl[k] > 0 && o->bytes[ps[k] + pl[k] - 1] == 0) pl[k]--;
+    return c;
+}
+
+static size_t strip_tz(const uint8_t *p, size_t l) { while (l > 0 && p[l - 1] == 0) l--; return l; }
+
+/* NAL offset attributes of an output against where its NAL units begin */
+static bool out_offsets_ok(const struct fx_out *o, uint8_t enc, const size_t *st0, const size_t *ps, int c)
+{
+    bool ok = (o->noff == c - 1) || (o->noff == c && o->off[c - 1] == o->size);
+    /* Annex B: of four zero-free-standing octets 00 00 00 01 the first may as well be the trailing zero octet of the
+     * NAL unit before (a stored parameter set that the framer prepends keeps its trailing zero) */
+    for (int q = 0; ok && q < c - 1; q++)
+        if (o->off[q] != st0[q + 1] && !(enc == UREF_H26X_ENCAPS_ANNEXB && ps[q + 1] - st0[q + 1] == 4 && o->off[q] == st0[q + 1] + 1)) ok = false;
+    return ok;
+}
+
+/* a copy of global headers without the bits that carry no information for the comparison between runs: in an
+ * hvcC record array_completeness and the reserved bit next to it (the framer does not set them; what the stand-in
+ * h265hvcc_array_set_nal_unit_type leaves there is whatever the stack held) */
+static size_t gh_normalised(const uint8_t *h, size_t len, bool h265, uint8_t *out, size_t cap)
+{
+    if (len > cap) len = cap;
+    memcpy(out, h, len);
+    bool annexb = len >= 4 && h[0] == 0 && h[1] == 0 && (h[2] == 1 || (h[2] == 0 && h[3] == 1));
+    if (!h265 || annexb || len < 23) return len;
+    size_t l = 23;
+    for (int a = 0, na = h[22]; a < na && l + 3 <= len; a++) {
+        out[l] &= 0x3f;
+        int c = h[l + 1] << 8 | h[l + 2]; l += 3;
+        for (int i = 0; i < c && l + 2 <= len; i++) l += 2 + ((size_t)h[l] << 8 | h[l + 1]);
+    }
+    return len;
+}
+
+static void fmt_list(char *a, size_t cap, const uint64_t *v, int n)
+{
+    size_t l = 0; a[0] = 0;
+    for (int q = 0; q < n && l + 24 < cap; q++) l += snprintf(a + l, cap - l, " %llu", (unsigned long long)v[q]);
+}
+
+/* oracle G for one run: the flow definitions the sink received. tab_ok: the NAL table describes what was sent */
+static int check_global(struct vp_report *rep, const char *what, const struct fx *fx, bool h265, uint8_t enc, const uint8_t *st,
+                        bool model, const int *out_frame_first_vcl /* es index of the first slice of output i, or NULL */,
+                        const uint8_t *in_h, size_t in_hlen, bool *built)
+{
+    static struct ghnal gn[GH_MAXNAL]; int ngn;
+    struct ghinfo inf;
+    for (int i = 0; i < fx->nout; i++) {
+        const struct fx_flowdef *d = NULL;
+        for (int k = 0; k < fx->nfd; k++) if (fx->fd[k].at_nout <= i) d = &fx->fd[k];
+        if (!d) return vp_fail(rep, "C17/global/flow-def", "%s: output %d arrived before any flow definition", what, i);
+        if (!d->has_headers)
+            return vp_fail(rep, "C17/global/missing", "%s: the sink asked for global headers, the flow definition in force for output %d has no f.headers", what, i);
+        bool annexb = d->hlen >= 4 && d->h[0] == 0 && d->h[1] == 0 && (d->h[2] == 1 || (d->h[2] == 0 && d->h[3] == 1));
+        bool ok;
+        if (enc == UREF_H26X_ENCAPS_ANNEXB && !annexb)
+            return vp_fail(rep, "C17/global/form", "%s: ANNEXB asked, the global headers (%zu octets) of the flow definition in force for output %d do not begin with a start code", what, d->hlen, i);
+        if (enc_plen(enc) && annexb)
+            return vp_fail(rep, "C17/global/form", "%s: %s asked, the global headers of the flow definition in force for output %d are Annex B, not a configuration record", what, encname(enc), i);
+        if (annexb) ok = gh_parse_annexb(d->h, d->hlen, h265, gn, &ngn, GH_MAXNAL);
+        else ok = h265 ? gh_parse_hvcc(d->h, d->hlen, gn, &ngn, GH_MAXNAL, &inf) : gh_parse_avcc(d->h, d->hlen, gn, &ngn, GH_MAXNAL, &inf);
+        if (!ok)
+            return vp_fail(rep, "C17/global/parse", "%s: the global headers (%zu octets, %s) of the flow definition in force for output %d do not parse", what, d->hlen, annexb ? "Annex B" : h265 ? "hvcC" : "avcC", i);
+        bool passed_through = in_h && in_hlen == d->hlen && !memcmp(in_h, d->h, in_hlen);
+        if (!passed_through) *built = true;
+        if (!annexb) {
+            if (inf.version != 1 || !inf.reserved_ok)
+                return vp_fail(rep, "C17/global/record", "%s: configuration record of output %d: version %d, reserved bits %s", what, i, inf.version, inf.reserved_ok ? "set" : "not all set");
+            if (enc_plen(enc) && inf.length_size != enc_plen(enc))
+                return vp_fail(rep, "C17/global/record", "%s: %s asked, the configuration record announces %d-octet lengths", what, encname(enc), inf.length_size);
+        }
+        int last_rank = -1;
+        for (int k = 0; k < ngn; k++) {
+            if (!is_ps_type(h265, gn[k].type))
+                return vp_fail(rep, "C17/global/content", "%s: global headers for output %d hold a NAL unit of type %d", what, i, gn[k].type);
+            size_t gl = strip_tz(gn[k].p, gn[k].len);
+            bool found = false;
+            for (int q = 0; q < nfnal && !found; q++)
+                if (fnal[q].ps && fnal[q].type == gn[k].type && fnal[q].pend - fnal[q].hp == gl && !memcmp(st + fnal[q].hp, gn[k].p, gl)) found = true;
+            if (!found)
+                return vp_fail(rep, "C17/global/content", "%s: global headers for output %d hold a NAL unit of type %d (%zu octets) that is not octet-identical to any parameter set that was sent", what, i, gn[k].type, gn[k].len);
+            if (ps_rank(h265, gn[k].type) < last_rank && !annexb)
+                return vp_fail(rep, "C17/global/content", "%s: configuration record for output %d lists type %d after a later kind", what, i, gn[k].type);
+            last_rank = ps_rank(h265, gn[k].type);
+        }
+        if (model && out_frame_first_vcl && out_frame_first_vcl[i] >= 0) {
+            /* the SPS this access unit refers to: latest PPS with the slice's id before it, latest SPS with that PPS's id */
+            int v = out_frame_first_vcl[i], pps = -1, sps = -1;
+            for (int q = v - 1; q >= 0 && pps < 0; q--) if (es.nal[q].type == (h265 ? 34 : 8) && es.nal[q].id == es.nal[v].pic.pps_id) pps = q;
+            if (pps < 0) for (int q = es.nnal - 1; q >= 0 && pps < 0; q--) if (es.nal[q].type == (h265 ? 34 : 8) && es.nal[q].id == es.nal[v].pic.pps_id) pps = q;
+            if (pps >= 0) for (int q = v - 1; q >= 0 && sps < 0; q--) if (es.nal[q].type == (h265 ? 33 : 7) && es.nal[q].id == es.nal[pps].ref_id) sps = q;
+            if (pps >= 0 && sps < 0) for (int q = es.nnal - 1; q >= 0 && sps < 0; q--) if (es.nal[q].type == (h265 ? 33 : 7) && es.nal[q].id == es.nal[pps].ref_id) sps = q;
+            if (sps >= 0) {
+                const struct nalrec *r = &es.nal[sps];
+                bool found = false;
+                for (int k = 0; k < ngn && !found; k++)
+                    if (gn[k].type == r->type && strip_tz(gn[k].p, gn[k].len) == r->pend - r->hp && !memcmp(gn[k].p, st + r->hp, r->pend - r->hp)) found = true;
+                if (!found)
+                    return vp_fail(rep, "C17/global/sps", "%s: the global headers in force for output %d do not hold the SPS (id %d, %zu octets, stream offset %zu) its slices refer to", what, i, r->id, r->pend - r->hp, r->hp);
+                if (passed_through) continue;
+                if (!annexb && !h265 && (inf.prof[0] != st[r->hp + 1] || inf.prof[1] != st[r->hp + 2] || inf.prof[2] != st[r->hp + 3]))
+                    return vp_fail(rep, "C17/global/record", "%s: avcC for output %d says profile %u compatibility %02x level %u, its SPS says %u %02x %u", what, i, inf.prof[0], inf.prof[1], inf.prof[2], st[r->hp + 1], st[r->hp + 2], st[r->hp + 3]);
+                if (!annexb && h265) {
+                    uint8_t rb[24]; size_t rl = es_unescape(st + r->hp + 2, r->pend - r->hp - 2, rb, sizeof(rb));
+                    if (rl >= 13 && memcmp(inf.prof, rb + 1, 12))
+                        return vp_fail(rep, "C17/global/record", "%s: hvcC for output %d: general profile / tier / level octets %02x %02x%02x%02x%02x .. %02x differ from those of its SPS %02x %02x%02x%02x%02x .. %02x", what, i,
+                                       inf.prof[0], inf.prof[1], inf.prof[2], inf.prof[3], inf.prof[4], inf.prof[11], rb[1], rb[2], rb[3], rb[4], rb[5], rb[12]);
+                    if (inf.chroma != r->chroma)
+                        return vp_fail(rep, "C17/global/record", "%s: hvcC for output %d says chroma format %d, its SPS says %d", what, i, inf.chroma, r->chroma);
+                }
+            }
+        }
+    }
+    return 0;
+}
+
+static bool fvalid_pre(bool valid, int kind) { return valid && (kind <= 4); }
+
+/* is the named exclusion lifted? All six defects these exclusions were built around are repaired in the repository
+ * (fix: commits a7e032b 47de203 433f238 b904996 f600381 04d9eac, known_findings.json): every exclusion is lifted by
+ * default and nothing is excluded. C17_EXCLUDE=1 or a list of names puts them back (development aid for bisecting on an
+ * older tree); --no-exclude lifts them regardless. */
+static bool lifted(unsigned flags, const char *name)
+{
+    if (flags & VP_NO_EXCLUDE) return true;
+    const char *e = getenv("C17_EXCLUDE");
+    return !(e && (!strcmp(e, "1") || strstr(e, name)));
+}
+
+/* H.264: is the boundary between access unit a and the next one visible only in the picture order count fields? */
+static bool h264_poc_only_boundary(int a)
+{
+    if (a + 1 >= es.nau) return false;
+    const struct nalrec *first = &es.nal[es.au[a + 1].nal0], *last = NULL;
+    if (!first->vcl) return false;
+    for (int k = es.au[a].nal0; k < es.au[a].nal1; k++) if (es.nal[k].vcl) last = &es.nal[k];
+    if (!last) return false;
+    const struct pic *x = &last->pic, *y = &first->pic;
+    return x->frame_num == y->frame_num && x->pps_id == y->pps_id && x->field == y->field && x->bottom == y->bottom &&
+           x->idr == y->idr && (!x->idr || x->idr_pic_id == y->idr_pic_id) && (x->ref_idc == 0) == (y->ref_idc == 0);
+}
+
 static const char *cutname[3] = { "one buffer", "one-octet buffers", "tape-chosen cutting" };
 
 static int run(const uint8_t *tp_, size_t len_, struct vp_report *rep, unsigned flags)
@@ -176,14 +512,27 @@ static int run(const uint8_t *tp_, size_t len_, struct vp_report *rep, unsigned 
     int ret = 0;
     char msg[400];
 
+    /* The case is decoded once with the SPS syntax of the first version of this executor; the octets that follow the
+     * output encapsulation choice (all zero on the tapes recorded then) select the new features. If they ask for
+     * the optional SPS syntax the case is decoded a second time with g_ext set: that syntax uses no tape octets. */
+    uint8_t m0 = 0, m1 = 0, m2 = 0;
+    int kind; bool h265, valid, seed; int ncopies, nmut;
+    const uint8_t *st; size_t len;
+    static size_t sstart[1024], shdr[1024];
+    int nsc;
+    struct cutting cut;
+    uint8_t oe;
+    g_ext = 0;
+    for (int pass = 0; ; pass++) {
+    tp_init(&t, tp_, len_);
     memset(&es, 0, sizeof(es));
     uint8_t b0 = tp_u8(&t);
     static const uint8_t kinds[16] = { 0, 0, 0, 0, 0, 0, 0, 4, 5, 5, 5, 5, 6, 7, 7, 7 };
-    int kind = kinds[b0 % 16];  /* 0 reference stream, 4 recorded stream, 5 mutated reference, 6 mutated recorded, 7 arbitrary */
-    bool h265 = (b0 / 16) % 2;
-    bool valid = kind <= 4, seed = kind == 4 || kind == 6;
+    kind = kinds[b0 % 16];  /* 0 reference stream, 4 recorded stream, 5 mutated reference, 6 mutated recorded, 7 arbitrary */
+    h265 = (b0 / 16) % 2;
+    valid = kind <= 4; seed = kind == 4 || kind == 6;
     if (seed) h265 = false;     /* the recorded stream is H.264 */
-    int ncopies = 0;
+    ncopies = 0;
 
     /* ---- the stream ---- */
     if (kind <= 3 || kind == 5) {
@@ -200,7 +549,7 @@ static int run(const uint8_t *tp_, size_t len_, struct vp_report *rep, unsigned 
         for (size_t i = 0; i < n; i++) { uint8_t v = tp_u8(&t); es.b[es.len++] = (v & 3) ? fav[(v >> 2) % sizeof(fav)] : tp_u8(&t); }
     }
     if (es.overflow) { valid = false; }
-    int nmut = 0;
+    nmut = 0;
     if (kind == 5 || kind == 6) {
         nmut = 1 + tp_u8(&t) % 4;
         for (int m = 0; m < nmut && es.len > 8; m++) {
@@ -221,14 +570,13 @@ static int run(const uint8_t *tp_, size_t len_, struct vp_report *rep, unsigned 
             }
         }
     }
-    const uint8_t *st = es.b; size_t len = es.len;
+    st = es.b; len = es.len;
 
     /* start codes of the final stream (harness scanner) for the cut generator and the classes */
-    static size_t sstart[1024], shdr[1024];
-    int nsc = es_scan(st, len, sstart, shdr, 1024);
+    nsc = es_scan(st, len, sstart, shdr, 1024);
 
     /* ---- the cutting ---- */
-    struct cutting cut; memset(&cut, 0, sizeof(cut));
+    memset(&cut, 0, sizeof(cut));
     {
         int want = tp_u8(&t) % 12;
         size_t tmp[MAXCUT]; bool tseg[MAXCUT]; int n = 0;
@@ -251,9 +599,123 @@ static int run(const uint8_t *tp_, size_t len_, struct vp_report *rep, unsigned 
     }
     /* output encapsulation asked by the sink: Annex B, or (upipe_h26xf_convert_frame on the framer's own NAL
      * offsets) 4-octet lengths, bare NAL units, 2-octet lengths */
-    uint8_t oe = UREF_H26X_ENCAPS_ANNEXB;
+    oe = UREF_H26X_ENCAPS_ANNEXB;
     { uint8_t v = tp_u8(&t); if (v % 4 == 3) oe = v / 4 % 3 == 0 ? UREF_H26X_ENCAPS_LENGTH4 : v / 4 % 3 == 1 ? UREF_H26X_ENCAPS_NALU : UREF_H26X_ENCAPS_LENGTH2; }
+    if (pass == 0) { m0 = tp_u8(&t); m1 = tp_u8(&t); m2 = tp_u8(&t); }
+    if (pass == 1 || (m1 & 1) == 0 || !(kind <= 3 || kind == 5)) break;     /* even: the SPS syntax of the first version */
+    g_ext = m1;
+    }
     int plen = oe == UREF_H26X_ENCAPS_LENGTH4 ? 4 : oe == UREF_H26X_ENCAPS_LENGTH2 ? 2 : 0;
+    /* ---- the input that is not an octet stream (m0), what the sink asks for, corruption of the buffers (m2) ---- */
+    int form = m0 % 8 == 6 ? FORM_NALU : m0 % 8 == 7 ? FORM_LEN4 : m0 % 8;     /* 0: none */
+    int psmode = m0 / 8 % 4;            /* 0, 1: parameter sets in band; 2: only in the global headers; 3: same, announced tersely */
+    bool want_global = (m0 & 0x20) != 0;
+    bool fseg = (m0 & 0x40) != 0, fcomplete = (m0 & 0x80) != 0 && form == FORM_ANNEXB;
+    if (m0 == 0) psmode = 0;
+    /* named exclusions of findings that are fixed by now (see lifted()): inactive unless C17_EXCLUDE asks for them */
+    /* h265-nalu-input-forced-to-annexb: upipe_h265f_handle_global_annexb switches NALU input to Annex B when the flow
+     * definition carries Annex B global headers (upipe_h264f keeps NALU): every access unit is lost */
+    if (!lifted(flags, "h265-nalu-input-forced-to-annexb") && h265 && form == FORM_NALU && psmode >= 2) { psmode = 0; rep->excluded++; }
+    /* h265-no-picture-attributes-on-au-input: upipe_h265f_work_nalu / work_length never call upipe_h265f_prepare_au:
+     * no key flag, no slice type (and so no parameter sets in front of key pictures when Annex B is written) */
+    bool ex_h265_attr = !lifted(flags, "h265-no-picture-attributes-on-au-input") && h265;
+    /* au-input-output-without-active-parameter-sets: a buffer without a slice, or before the parameter sets it needs,
+     * is still written out; with Annex B asked upipe_h264f_output_au reads pps[-1], upipe_h265f dups a NULL start code.
+     * (whatever the sink asks: the output encapsulation is still the initial one). On corrupt input the sink therefore
+     * does not ask for Annex B (H.264) and the buffers are Annex B pieces, which take the other path (H.265). */
+    bool ex_no_annexb = !lifted(flags, "au-input-output-without-active-parameter-sets");
+    if (ex_no_annexb && h265 && !fvalid_pre(valid, kind) && form != FORM_NONE && (form != FORM_ANNEXB || psmode >= 2)) {
+        /* (global headers that look like an hvcC record switch the framer to length-prefixed input: none then) */
+        form = FORM_ANNEXB; psmode = 0; fcomplete = (m0 & 0x80) != 0; rep->excluded++; }
+    /* complete-input-start-code-across-access-units: with f.comp the scanner state survives the access unit that was
+     * just written out; a buffer ending inside a start code makes au_size wrap in the next one (assertion in
+     * upipe_h26xf_decaps_nal). On corrupt input the flow definition therefore does not announce complete access units. */
+    if (!lifted(flags, "complete-input-start-code-across-access-units") && !fvalid_pre(valid, kind) && fcomplete) { fcomplete = false; rep->excluded++; }
+    /* h264-picture-gets-slice-type-of-next-picture: upipe_h264f_handle_slice stores slice_type before the picture
+     * order count comparison that may still say "new picture": when only the POC tells two pictures apart the first
+     * one is written out with the slice type (key flag) of the second. Such access units are not compared in E. */
+    bool ex_h264_poc = !lifted(flags, "h264-picture-gets-slice-type-of-next-picture") && !h265;
+    /* h265-second-header-octet-skips-scanner: upipe_h265f_find steps over the second NAL header octet without showing
+     * it to the start code scanner, which then may take 00 | 00 01 around that octet for a start code: the NAL offset
+     * points at octets that are no start code and upipe_h26xf_decaps_nal asserts as soon as another encapsulation than
+     * Annex B is asked. On corrupt H.265 input the sink therefore asks for Annex B only. */
+    bool ex_h265_scan = !lifted(flags, "h265-second-header-octet-skips-scanner") && h265 && !fvalid_pre(valid, kind);
+    if (ex_h265_scan && oe != UREF_H26X_ENCAPS_ANNEXB) { oe = UREF_H26X_ENCAPS_ANNEXB; plen = 0; rep->excluded++; }
+    bool model = (kind <= 3) && !es.overflow;       /* the NAL unit table of the reference encoder describes the stream */
+    bool fvalid = valid && (model || kind == 4);
+    if (model) for (int a = 0; a < es.nau; a++) if (!es.au[a].has_vcl) fvalid = false;
+    bool oob = false, oob_record = false, oob_infer = false, oob_sc3 = false;
+    int in_encaps = UREF_H26X_ENCAPS_ANNEXB;
+    fm_table(h265, model, st, len, sstart, shdr, nsc, kind == 4 ? sizeof(h264_headers) + sizeof(h264_pic) : 0, 1 + m2 % 4);
+    if (form != FORM_NONE) {
+        if (psmode >= 2) oob = fm_collect_ps(h265, st, fvalid);
+        if (form == FORM_LEN1 && fvalid)    /* a NAL unit longer than 255 octets has no 1-octet length: 2 octets then */
+            for (int k = 0; k < nfnal; k++) if (!(oob && fnal[k].ps) && fnal[k].pend - fnal[k].hp > 255) form = FORM_LEN2;
+        fm_build(st, form, oob);
+        in_encaps = form == FORM_NALU ? UREF_H26X_ENCAPS_NALU : form == FORM_LEN4 ? UREF_H26X_ENCAPS_LENGTH4 : form == FORM_LEN2 ? UREF_H26X_ENCAPS_LENGTH2 :
+                    form == FORM_LEN1 ? UREF_H26X_ENCAPS_LENGTH1 : UREF_H26X_ENCAPS_ANNEXB;
+        ghdr_len = 0;
+        if (oob) {
+            int ls = form == FORM_LEN4 ? 4 : form == FORM_LEN2 ? 2 : 1;
+            if (form == FORM_NALU || form == FORM_ANNEXB) {
+                oob_sc3 = psmode == 3;
+                ghdr_len = gh_write_annexb(ghdr, sizeof(ghdr), oobn, noob, oob_sc3);
+                if (form == FORM_ANNEXB && psmode == 3) { oob_infer = true; in_encaps = -1; }
+            } else {
+                oob_record = true;
+                if (h265) {
+                    /* the general profile / tier / level octets, chroma format and bit depth of the first SPS */
+                    uint8_t ptl[12] = { 0 }; int chroma = 1, depth = 0, nl = 1;
+                    for (int k = 0; k < noob; k++) if (oobn[k].type == 33) {
+                        uint8_t rb[24]; if (oobn[k].len > 2 && es_unescape(oobn[k].p + 2, oobn[k].len - 2, rb, sizeof(rb)) >= 13) memcpy(ptl, rb + 1, 12);
+                        for (int q = 0; q < nfnal; q++) if (fnal[q].es >= 0 && st + fnal[q].hp == oobn[k].p) { chroma = es.nal[fnal[q].es].chroma; depth = es.nal[fnal[q].es].depth; nl = es.nal[fnal[q].es].subl + 1; }
+                        break; }
+                    ghdr_len = gh_write_hvcc(ghdr, sizeof(ghdr), oobn, noob, ls, ptl, chroma, depth, nl);
+                } else {
+                    int chroma = 1, depth = 0; bool high = false;
+                    for (int k = 0; k < noob; k++) if (oobn[k].type == 7) {
+                        high = oobn[k].len > 1 && (oobn[k].p[1] == 100 || oobn[k].p[1] == 110 || oobn[k].p[1] == 122 || oobn[k].p[1] == 144);
+                        for (int q = 0; q < nfnal; q++) if (fnal[q].es >= 0 && st + fnal[q].hp == oobn[k].p) { chroma = es.nal[fnal[q].es].chroma; depth = es.nal[fnal[q].es].depth; }
+                        break; }
+                    ghdr_len = gh_write_avcc(ghdr, sizeof(ghdr), oobn, noob, ls, high && (m0 & 0x80), chroma, depth);
+                }
+                if (psmode == 3) { oob_infer = true; in_encaps = -1; }
+            }
+            if (ghdr_len == 0) {        /* does not fit a record: parameter sets in band after all */
+                oob = oob_record = oob_infer = oob_sc3 = false;
+                fm_build(st, form, false);
+                in_encaps = form == FORM_NALU ? UREF_H26X_ENCAPS_NALU : form == FORM_LEN4 ? UREF_H26X_ENCAPS_LENGTH4 : form == FORM_LEN2 ? UREF_H26X_ENCAPS_LENGTH2 :
+                            form == FORM_LEN1 ? UREF_H26X_ENCAPS_LENGTH1 : UREF_H26X_ENCAPS_ANNEXB;
+            }
+        }
+        /* corrupt input: damage the buffers and the global headers as well */
+        if (!valid && nframes > 0 && (m2 & 3)) {
+            struct frame *f = &frames[(m2 >> 4) % nframes];
+            int pl = form == FORM_LEN4 ? 4 : form == FORM_LEN2 ? 2 : form == FORM_LEN1 ? 1 : 0;
+            switch (m2 & 3) {
+            case 1: {
+                int j = (m2 >> 6) % f->nk;
+                if (pl) fbuf[f->off + fkn[f->k0 + j].at - 1] += 1 + ((m2 >> 2) & 3);      /* a length that no longer tiles the buffer */
+                else if (form == FORM_NALU && f->nnoff) f->noff[j % f->nnoff] += 1;
+                else fbuf[f->off + f->len / 2] ^= 0x80;
+                break; }
+            case 2: { size_t cutn = 1 + ((m2 >> 2) & 3); if (f->len > cutn) f->len -= cutn; while (f->nnoff && f->noff[f->nnoff - 1] >= f->len) f->nnoff--; break; }
+            default: if (f == &frames[nframes - 1]) { static const uint8_t junk[4] = { 0xff, 0x00, 0x01, 0x80 }; size_t n = 1 + ((m2 >> 2) & 3); memcpy(fbuf + f->off + f->len, junk, n); f->len += n; }
+                     else fbuf[f->off + f->len - 1] = 0;
+                     break;
+            }
+        }
+        if (!valid && oob && ghdr_len > 8 && (m2 & 12)) {
+            switch ((m2 >> 2) & 3) {
+            case 1: ghdr[((m2 >> 4) * 3 + 1) % ghdr_len] ^= 0x10 << ((m2 >> 6) & 1); break;
+            case 2: ghdr_len -= 1 + (m2 >> 4) % 8; break;
+            default:
+                if (oob_record && ((m2 >> 6) & 1)) ghdr[h265 ? 21 : 4] = (ghdr[h265 ? 21 : 4] & 0xfc) | 2;    /* lengthSizeMinusOne 2: no such prefix */
+                else ghdr[oob_record ? (h265 ? 22 : 5) : ghdr_len / 2] = 0xff;                                 /* a count larger than the record */
+                break;
+            }
+        }
+    }
     bool cut_in_sc = false, cut_after_sc = false, segcut = false;
     for (int i = 0; i < cut.n; i++) {
         if (cut.seg[i]) { segcut = true; continue; }
@@ -265,6 +727,7 @@ static int run(const uint8_t *tp_, size_t len_, struct vp_report *rep, unsigned 
 
     uint64_t h = vp_hash_bytes(VP_HASH_INIT, st, len);
     h = vp_hash_mix(h, (uint64_t)oe << 16 | (uint64_t)h265 << 8 | kind);
+    h = vp_hash_mix(h, (uint64_t)m0 << 16 | (uint64_t)(form != FORM_NONE && !valid ? m2 : 0) << 8 | g_ext);
     for (int i = 0; i < cut.n; i++) h = vp_hash_mix(h, cut.pos[i] * 2 + cut.seg[i]);
 
     if (render) {
@@ -292,13 +755,34 @@ static int run(const uint8_t *tp_, size_t len_, struct vp_report *rep, unsigned 
         R("\n  cutting:");
         for (int i = 0; i < cut.n; i++) R(" %zu%s", cut.pos[i], cut.seg[i] ? "s" : "");
         R("\n");
+        if (g_ext) R("  optional SPS syntax (seed %u):%s%s%s%s\n", g_ext, es.has_vui ? " VUI" : "", es.has_timing ? " timing" : "", es.has_hrd ? " HRD" : "", es.has_scaling ? " scaling lists" : "");
+        if (want_global) R("  the sink asks for global headers (f.global)\n");
+        if (form != FORM_NONE) {
+            R("  also fed one access unit per buffer as %s%s%s: %d buffers;", formname[form], fseg ? ", two segments each" : "", fcomplete ? ", flow definition says complete access units" : "", nframes);
+            if (oob) {
+                R(" parameter sets only in the global headers (%s%s%s, %zu octets):", oob_record ? (h265 ? "hvcC" : "avcC") : "Annex B", oob_sc3 ? ", 3-octet start codes" : "", oob_infer ? ", no encapsulation attribute" : "", ghdr_len);
+                for (size_t i = 0; i < ghdr_len && i < 120; i++) R(" %02x", ghdr[i]);
+                if (ghdr_len > 120) R(" ...");
+            } else R(" parameter sets in band");
+            R("\n");
+            for (int i = 0; i < nframes && i < 32; i++) {
+                R("    buffer %d (%zu octets, NAL types", i, frames[i].len);
+                for (int q = 0; q < frames[i].nk; q++) R(" %d/%zu", fnal[fkn[frames[i].k0 + q].fn].type, fkn[frames[i].k0 + q].len);
+                if (form == FORM_NALU) { R("; offsets"); for (int q = 0; q < frames[i].nnoff; q++) R(" %zu", frames[i].noff[q]); }
+                R("):");
+                for (size_t q = 0; q < frames[i].len && q < 48; q++) R(" %02x", fbuf[frames[i].off + q]);
+                if (frames[i].len > 48) R(" ...");
+                R("\n");
+            }
+            if (!valid && (m2 & 15)) R("    (buffers / global headers damaged: m2=%02x)\n", m2);
+        }
     }
 
     /* ---- three runs ---- */
     struct cutting none; memset(&none, 0, sizeof(none));
-    do_run(&runs[0], h265, oe, st, len, &none, false);
-    do_run(&runs[1], h265, oe, st, len, &none, true);
-    do_run(&runs[2], h265, oe, st, len, &cut, false);
+    do_run(&runs[0], h265, oe, want_global, st, len, &none, false);
+    do_run(&runs[1], h265, oe, want_global, st, len, &none, true);
+    do_run(&runs[2], h265, oe, want_global, st, len, &cut, false);
 
     for (int r = 0; r < 3 && ret == 0; r++)
         if (runs[r].err) ret = vp_internal(rep, "fixture (%s): %s", cutname[r], runs[r].err);
@@ -447,6 +931,180 @@ static int run(const uint8_t *tp_, size_t len_, struct vp_report *rep, unsigned 
             ret = vp_fail(rep, "C17/cutting/count", "same stream: %d outputs as %s, %d outputs as %s", a->nout, cutname[0], b->nout, cutname[r]);
     }
 
+    /* the flow definitions the sink received: the same under all cuttings */
+    for (int r = 1; r < 3 && ret == 0; r++) {
+        const struct fx *a = &runs[0].fx, *b = &runs[r].fx;
+        if (a->fd_truncated || b->fd_truncated) continue;
+        if (a->nfd != b->nfd) { ret = vp_fail(rep, "C17/cutting/flow-def", "same stream: the sink received %d flow definitions as %s, %d as %s", a->nfd, cutname[0], b->nfd, cutname[r]); break; }
+        for (int k = 0; k < a->nfd && ret == 0; k++) {
+            const struct fx_flowdef *x = &a->fd[k], *y = &b->fd[k];
+            static uint8_t nx[GH_MAX], ny[GH_MAX];
+            size_t lx = x->has_headers ? gh_normalised(x->h, x->hlen, h265, nx, sizeof(nx)) : 0, ly = y->has_headers ? gh_normalised(y->h, y->hlen, h265, ny, sizeof(ny)) : 0;
+            if (x->at_nout != y->at_nout || x->has_headers != y->has_headers || x->hlen != y->hlen || lx != ly || memcmp(nx, ny, lx))
+            {
+                size_t dd = 0; while (dd < lx && dd < ly && nx[dd] == ny[dd]) dd++;
+                ret = vp_fail(rep, "C17/cutting/flow-def", "same stream: flow definition %d differs between '%s' (before output %d, %s%zu octets of global headers) and '%s' (before output %d, %s%zu octets); first different octet: %zu", k,
+                              cutname[0], x->at_nout, x->has_headers ? "" : "no/", x->hlen, cutname[r], y->at_nout, y->has_headers ? "" : "no/", y->hlen, dd);
+            }
+        }
+    }
+
+    /* ---- G on the octet stream runs ---- */
+    bool global_built = false;
+    static int first_vcl[256];
+    if (want_global && valid && ret == 0) {
+        int nexp = 0;
+        if (model) for (int a = 0; a < es.nau && nexp < 256; a++) if (es.au[a].has_vcl) {
+            int v = -1; for (int k = es.au[a].nal0; k < es.au[a].nal1 && v < 0; k++) if (es.nal[k].vcl) v = k;
+            first_vcl[nexp++] = v; }
+        for (int r = 0; r < 3 && ret == 0; r++)
+            ret = check_global(rep, cutname[r], &runs[r].fx, h265, oe, st, model, model && runs[r].fx.nout <= nexp ? first_vcl : NULL, NULL, 0, &global_built);
+    }
+
+    /* ---- the same access units, one per buffer ---- */
+    int nfruns = 0; bool refused1 = false, ex_counted = false;
+    if (form != FORM_NONE && nframes > 0 && ret == 0) {
+        struct fx_input in = { in_encaps, oob ? ghdr : NULL, oob ? ghdr_len : 0, fcomplete };
+        for (int x = 0; x < 5; x++) {
+            struct run *r = &fruns[x];
+            memset(r, 0, sizeof(*r));
+            nfruns = x + 1;
+            if (x == 0 && !fvalid && ex_no_annexb && !h265) { r->skipped = true; rep->excluded++; continue; }
+            if (x > 0 && ex_h265_scan) { r->skipped = true; if (x == 1) rep->excluded++; continue; }
+            r->err = fx_open_ex(&r->fx, h265, fouts[x], want_global, &in);
+            for (int i = 0; i < nframes && !r->err; i++) {
+                const struct frame *f = &frames[i];
+                size_t seglen[2] = { f->len, 0 }; int nseg = 1;
+                if (fseg && f->len >= 2) { seglen[0] = f->nk > 1 ? fkn[f->k0 + 1].at - 1 : f->len / 2; if (seglen[0] == 0 || seglen[0] >= f->len) seglen[0] = f->len / 2; seglen[1] = f->len - seglen[0]; nseg = 2; }
+                r->err = fx_feed_frame(&r->fx, fbuf + f->off, seglen, nseg, f->noff, form == FORM_NALU ? f->nnoff : 0);
+            }
+            fx_release_framer(&r->fx);
+            if (r->err) { ret = vp_internal(rep, "fixture (access unit per buffer, %s asked): %s", encname(fouts[x]), r->err); break; }
+        }
+        if (render && ret == 0) {
+            for (int x = 0; x < nfruns; x++) {
+                const struct fx *fx = &fruns[x].fx;
+                if (fruns[x].skipped) continue;
+                R("  one access unit per buffer, %s asked -> %d outputs:", encname(fouts[x]), fx->nout);
+                for (int i = 0; i < fx->nout && i < 12; i++) {
+                    const struct fx_out *o = &fx->out[i];
+                    R(" [%zu octets%s%s n=", o->size, o->key ? " key" : "", o->random ? " random" : "");
+                    for (int k = 0; k < o->noff; k++) R("%s%llu", k ? "," : "", (unsigned long long)o->off[k]);
+                    if (o->has_hdr) R(" hdr=%llu", (unsigned long long)o->hdr);
+                    R("]");
+                }
+                R(" events: fatal=%d error=%d set_flow_def=%d", fx->n_fatal, fx->n_error, fx->n_set_flow_def);
+                for (int k = 0; k < fx->nfd && k < 4; k++) R(" flowdef@%d(%s%zu octets of global headers)", fx->fd[k].at_nout, fx->fd[k].has_headers ? "" : "no/", fx->fd[k].hlen);
+                R("\n");
+            }
+        }
+        for (int x = 0; x < nfruns && ret == 0; x++) {
+            const struct fx *fx = &fruns[x].fx;
+            uint8_t X = fouts[x];
+            if (fruns[x].skipped) continue;
+            char what[96]; snprintf(what, sizeof(what), "%s input, %s asked", formname[form], encname(X));
+            static size_t st0[FM_MAXK + 40], ps[FM_MAXK + 40], pl[FM_MAXK + 40];
+            char why[200];
+            /* P: nothing but the buffers themselves when no conversion is asked */
+            if (X == in_encaps && X != UREF_H26X_ENCAPS_ANNEXB) {
+                int fi = 0;
+                for (int i = 0; i < fx->nout && ret == 0; i++) {
+                    const struct fx_out *o = &fx->out[i];
+                    while (fi < nframes && !(frames[fi].len == o->size && !memcmp(fbuf + frames[fi].off, o->bytes, o->size))) fi++;
+                    if (fi == nframes) ret = vp_fail(rep, "C17/frames/passthrough", "%s: output %d (%zu octets) is not one of the input buffers that follow the previous output's", what, i, o->size);
+                    fi++;
+                }
+            }
+            if (!fvalid || ret) continue;
+            /* F */
+            int no = 0, refused = 0;
+            for (int i = 0; i < nframes && ret == 0; i++) {
+                const struct frame *f = &frames[i];
+                if (X == UREF_H26X_ENCAPS_LENGTH1 && f->big1) { refused++; refused1 = true; continue; }
+                if (no >= fx->nout) { ret = vp_fail(rep, "C17/frames/missing", "%s: buffer %d (access unit %d, %zu octets, %d NAL units, follows valid parameter sets) was never output; %d outputs in all, %d error events", what, i, f->au, f->len, f->nk, fx->nout, fx->n_error); break; }
+                const struct fx_out *o = &fx->out[no];
+                int c = out_nals(o, X, st0, ps, pl, FM_MAXK + 40, why, sizeof(why));
+                if (c < 0) { ret = vp_fail(rep, "C17/frames/encapsulation", "%s: output %d (%zu octets) is not in the encapsulation asked for: %s", what, no, o->size, why); break; }
+                if (!out_offsets_ok(o, X, st0, ps, c) && !fx->out_truncated) {
+                    char a[200], b[200]; uint64_t e64[FM_MAXK + 40];
+                    fmt_list(a, sizeof(a), o->off, o->noff);
+                    for (int q = 1; q < c; q++) e64[q - 1] = st0[q];
+                    fmt_list(b, sizeof(b), e64, c - 1);
+                    ret = vp_fail(rep, "C17/frames/nal-offsets", "%s: output %d (%zu octets): NAL offset attributes are {%s }, its NAL units start at {%s }", what, no, o->size, a, b);
+                    break;
+                }
+                int P = c - f->nk;
+                if (P < 0 || (P > 0 && X != UREF_H26X_ENCAPS_ANNEXB)) { ret = vp_fail(rep, "C17/frames/nal-count", "%s: output %d has %d NAL units, buffer %d held %d", what, no, c, i, f->nk); break; }
+                for (int q = 0; q < f->nk && ret == 0; q++) {
+                    const struct fkn *n = &fkn[f->k0 + q];
+                    const uint8_t *ip = fbuf + f->off + n->at; size_t il = strip_tz(ip, n->len);
+                    if (pl[P + q] != il || memcmp(o->bytes + ps[P + q], ip, il)) {
+                        size_t d = 0; while (d < il && d < pl[P + q] && o->bytes[ps[P + q] + d] == ip[d]) d++;
+                        ret = vp_fail(rep, "C17/frames/payload", "%s: output %d, NAL unit %d (%zu octets at %zu) is not NAL unit %d of buffer %d (type %d, %zu octets): first difference at octet %zu", what, no, P + q, pl[P + q], ps[P + q], q, i, fnal[n->fn].type, il, d);
+                    }
+                }
+                for (int q = 0; q < P && ret == 0; q++) {
+                    int ty = h265 ? (o->bytes[ps[q]] >> 1) & 0x3f : o->bytes[ps[q]] & 0x1f;
+                    if (pl[q] == 0 || !is_prefix_type(h265, o->bytes + ps[q])) { ret = vp_fail(rep, "C17/frames/prefix", "%s: output %d carries a NAL unit of type %d before the access unit that is not an AUD / parameter set", what, no, ty); break; }
+                    if (!is_ps_type(h265, ty)) continue;
+                    bool found = false;
+                    for (int z = 0; z < nfnal && !found; z++)
+                        if (fnal[z].ps && fnal[z].type == ty && fnal[z].pend - fnal[z].hp == pl[q] && !memcmp(st + fnal[z].hp, o->bytes + ps[q], pl[q])) found = true;
+                    if (!found) ret = vp_fail(rep, "C17/frames/prefix", "%s: output %d has a prepended NAL unit of type %d (%zu octets) that is not octet-identical to any parameter set that was sent", what, no, ty, pl[q]);
+                    prefix_ps = true;
+                }
+                if (ret) break;
+                /* E: against the octet-stream run */
+                if (i < runs[0].fx.nout && (model || kind == 4)) {
+                    const struct fx_out *a = &runs[0].fx.out[i];
+                    char diff[160] = "";
+                    bool skip_type = ex_h265_attr;
+                    if (ex_h264_poc && model && h264_poc_only_boundary(f->au)) { skip_type = true; if (!ex_counted) { rep->excluded++; ex_counted = true; } }
+                    if (skip_type) { if (!ex_counted) { rep->excluded++; ex_counted = true; } }
+                    else if (a->key != o->key) snprintf(diff, sizeof(diff), "key flag %d / %d", a->key, o->key);
+                    if (diff[0]) ;
+                    else if (a->random != o->random) snprintf(diff, sizeof(diff), "random access flag %d / %d", a->random, o->random);
+                    else if (a->error != o->error) snprintf(diff, sizeof(diff), "error flag %d / %d", a->error, o->error);
+                    else if (skip_type) ;
+                    else if (a->has_type != o->has_type || (a->has_type && a->type != o->type)) snprintf(diff, sizeof(diff), "slice type %s%u / %s%u", a->has_type ? "" : "absent:", a->type, o->has_type ? "" : "absent:", o->type);
+                    else if (a->has_num != o->has_num || (a->has_num && a->num != o->num)) snprintf(diff, sizeof(diff), "picture number %s%llu / %s%llu", a->has_num ? "" : "absent:", (unsigned long long)a->num, o->has_num ? "" : "absent:", (unsigned long long)o->num);
+                    if (diff[0]) { ret = vp_fail(rep, "C17/encaps/attributes", "access unit %d: as an octet stream (%s asked) and as %s: %s", f->au, encname(oe), what, diff); break; }
+                    if (X == UREF_H26X_ENCAPS_ANNEXB && oe == UREF_H26X_ENCAPS_ANNEXB && !oob && !skip_type) {
+                        static size_t st1[FM_MAXK + 40], ps1[FM_MAXK + 40], pl1[FM_MAXK + 40];
+                        int c1 = out_nals(a, oe, st1, ps1, pl1, FM_MAXK + 40, why, sizeof(why));
+                        if (c1 >= 0) {
+                            bool same = c1 == c;
+                            for (int q = 0; same && q < c; q++) if (pl1[q] != pl[q] || memcmp(a->bytes + ps1[q], o->bytes + ps[q], pl[q])) same = false;
+                            if (!same) { ret = vp_fail(rep, "C17/encaps/nal-units", "access unit %d written as Annex B: %d NAL units when it arrived in the octet stream, %d as %s (or their octets differ)", f->au, c1, c, what); break; }
+                        }
+                    }
+                }
+                no++;
+            }
+            if (ret == 0 && no < fx->nout)
+                ret = vp_fail(rep, "C17/frames/extra", "%s: %d outputs for %d buffers (%d refused); output %d has %zu octets", what, fx->nout, nframes, refused, no, fx->out[no].size);
+            if (ret == 0 && (fx->n_fatal || fx->n_error != refused))
+                ret = vp_fail(rep, "C17/frames/event", "%s: %d fatal and %d error events on valid access units (%d refusals expected)", what, fx->n_fatal, fx->n_error, refused);
+            /* G */
+            if (ret == 0 && want_global) {
+                static int fv[FM_MAXFR]; int nn = 0;
+                for (int i = 0; i < nframes; i++) {
+                    if (X == UREF_H26X_ENCAPS_LENGTH1 && frames[i].big1) continue;
+                    int v = -1;
+                    for (int q = 0; q < frames[i].nk && v < 0; q++) if (fnal[fkn[frames[i].k0 + q].fn].vcl) v = fnal[fkn[frames[i].k0 + q].fn].es;
+                    fv[nn++] = v;
+                }
+                ret = check_global(rep, what, fx, h265, X, st, model, model ? fv : NULL, oob ? ghdr : NULL, oob ? ghdr_len : 0, &global_built);
+            }
+        }
+        for (int x = 0; x < nfruns; x++) {
+            if (fruns[x].skipped) continue;
+            end_run(&fruns[x]);
+            if (ret == 0 && fruns[x].audit)
+                ret = vp_fail(rep, "C17/frames/leak", "%s input, %s asked: after releasing the framer: %s", formname[form], encname(fouts[x]), fruns[x].audit);
+        }
+    }
+
     int nout0 = runs[0].fx.nout;
     for (int r = 0; r < 3; r++) {
         end_run(&runs[r]);
@@ -474,6 +1132,27 @@ static int run(const uint8_t *tp_, size_t len_, struct vp_report *rep, unsigned 
     if (nout0 == 0) rep->classes |= 1u << CL_NOOUT;
     if (cut_after_sc) rep->classes |= 1u << CL_CUT_AFTER_SC;
     if (oe != UREF_H26X_ENCAPS_ANNEXB) rep->classes |= 1u << CL_CONVERTED;
+    if (nfruns) {
+        rep->classes |= 1ull << CL_FRAMES;
+        if (form == FORM_NALU) rep->classes |= 1ull << CL_F_NALU;
+        if (form == FORM_LEN4 || form == FORM_LEN2 || form == FORM_LEN1) rep->classes |= 1ull << CL_F_LEN;
+        if (form == FORM_LEN1) rep->classes |= 1ull << CL_F_LEN1;
+        if (form == FORM_ANNEXB) rep->classes |= 1ull << CL_F_ANNEXB;
+        if (fvalid) rep->classes |= 1ull << CL_F_VALID; else rep->classes |= 1ull << CL_F_CORRUPT;
+        if (oob) rep->classes |= 1ull << CL_OOB;
+        if (oob_record) rep->classes |= 1ull << CL_OOB_RECORD;
+        if (oob_infer) rep->classes |= 1ull << CL_OOB_INFER;
+        if (fseg) rep->classes |= 1ull << CL_F_SEG;
+        if (fcomplete) rep->classes |= 1ull << CL_F_COMPLETE;
+        if (nframes >= 2) rep->classes |= 1ull << CL_F_MULTI;
+        if (refused1) rep->classes |= 1ull << CL_REFUSED1;
+    }
+    if (want_global) rep->classes |= 1ull << CL_WANT_GLOBAL;
+    if (global_built) rep->classes |= 1ull << CL_GLOBAL_BUILT;
+    if (es.has_vui) rep->classes |= 1ull << CL_VUI;
+    if (es.has_hrd) rep->classes |= 1ull << CL_HRD;
+    if (es.has_timing) rep->classes |= 1ull << CL_TIMING;
+    if (es.has_scaling) rep->classes |= 1ull << CL_SCALING;
     rep->nontrivial = cut_in_sc && nout0 >= 2;
     return ret;
 }
